@@ -1,10 +1,10 @@
 CONSTANTS
   HashMode = "real"
-  Bug = "CopyKeepsHash"
-  Sweeps = {"small"}
+  Bug = "NoIdentityPath"
+  Sweeps = {"ssmall"}
   PairDepth = 2
   NearDepth = 2
-  DeepDepth = 3
+  DeepDepth = 1
   HierDepth = 2
   XDepth = 1
   SelfDepth = 2
@@ -12,6 +12,6 @@ CONSTANTS
   EmitCases = FALSE
 INIT Init
 NEXT Next
-INVARIANT HashRespectsEq
+INVARIANT EqIsPyEq
 
 CHECK_DEADLOCK FALSE
